@@ -236,7 +236,7 @@ def _wiring(p, top):
     return table, units, dup
 
 
-@job("c19.mphys_wiring", ("C19",), cfgs=[dict(nsurf=1, compressible=True), dict(nsurf=2, compressible=False), dict(nsurf=3, compressible=True)])
+@job("c19.mphys_wiring", ("C19", "C17", "C06", "C11"), cfgs=[dict(nsurf=1, compressible=True), dict(nsurf=2, compressible=False), dict(nsurf=3, compressible=True)])
 def mphys_wiring(env, nsurf, compressible):
     """modular equivalence of the MPhys wrapper groups and the native analysis point: both are built from the same
     component classes (each under its own contract); in the real connection tables every component input is fed by the
@@ -289,10 +289,10 @@ def mphys_wiring(env, nsurf, compressible):
         a, b = tn[key], tm.get(key)
         nm = "%s[%s]:%s.%s" % key
         if b is None:
-            env.holds("C19", "MPhys wiring: input %s is connected" % nm, False, "fed by %s natively, unconnected in the MPhys groups" % (a,))
+            env.holds("C19,C17,C06,C11", "MPhys wiring: input %s is connected" % nm, False, "fed by %s natively, unconnected in the MPhys groups" % (a,))
             continue
         if a[0] == "comp" or b[0] == "comp":
-            env.holds("C19", "MPhys wiring: input %s has the native source" % nm, a == b, "native %s, MPhys %s" % (a, b))
+            env.holds("C19,C17,C06,C11", "MPhys wiring: input %s has the native source" % nm, a == b, "native %s, MPhys %s" % (a, b))
         else:
             ext.setdefault(a[1], set()).add(b[1])
         env.holds("C19", "MPhys wiring: input %s has the native units" % nm, un[key] == um.get(key), "%s vs %s" % (un[key], um.get(key)))
